@@ -292,9 +292,12 @@ def invalid_call(rng, target, kind_inv):
             return cls(a['tok'] if tk is None else tk, a['t'], a['op'])
         return cls(a['tok'] if tk is None else tk, spell(a['measure'], a['spelling']), a['t'])
 
+    empty_cand = rng.random() < 0.35      # an empty candidate set must not short-cut the validations
+
     def cand():
-        return pd.DataFrame({'_id': [0], 'l_k': [L['id'].iloc[0] if isinstance(a['L'], pd.DataFrame) and len(L) else 1],
-                             'r_k': [R['id'].iloc[0] if isinstance(a['R'], pd.DataFrame) and len(R) else 1]})
+        c = pd.DataFrame({'_id': [0], 'l_k': [L['id'].iloc[0] if isinstance(a['L'], pd.DataFrame) and len(L) else 1],
+                          'r_k': [R['id'].iloc[0] if isinstance(a['R'], pd.DataFrame) and len(R) else 1]})
+        return c.iloc[0:0] if empty_cand else c
 
     if target[0] == 'join':
         def thunk():
@@ -325,6 +328,7 @@ def invalid_call(rng, target, kind_inv):
                                      False, a['l_out'], a['r_out'], show_progress=False)
     watch = [x for x in (a['L'], a['R']) if isinstance(x, pd.DataFrame)]
     return thunk, exp, watch, tok, {'target': list(target), 'invalid': k, 'measure': a['measure'],
+                                    'empty_candset': empty_cand,
                                     't': repr(a['t']), 'op': a['op'], 'tokenizer': kind,
                                     'return_set': tok.get_return_set()}
 
